@@ -1144,5 +1144,233 @@ theorem readAttr_sim {F : Prop} {p : Nat} (t u : Tokenizer) (save : Bool) (c : C
   by_cases hu : (save && u2.pkS != u2.pkE) = true <;> by_cases ht : (save && t2.pkS != t2.pkE) = true <;>
     sif [hu, ht] at e ⊢ <;> exact key _ _ (by lrfl) (by lrfl) e
 
+theorem Core.okT {F : Prop} {p : Nat} {t u : Tokenizer} (c : Core F p t u) (ok : Ok u) : Ok t :=
+  ⟨by have := c.size; have := c.rawE; have := ok.le; omega, c.panic.trans ok.panic, c.hang.trans ok.hang,
+    c.utf8.trans ok.utf8⟩
+
+theorem tagAttrsGo_sim {F : Prop} {p : Nat} (t u : Tokenizer) (save : Bool) (c : Core F p t u) (ok : Ok u)
+    (e : EO F (tagAttrsGo u save)) : Core F p (tagAttrsGo t save) (tagAttrsGo u save) := by
+  fun_induction tagAttrsGo u save generalizing t
+  all_goals (try simp +zetaDelta only at *)
+  case case1 =>
+    have rb := readByte_sim c e
+    conv => arg 3; rw [tagAttrsGo]
+    sif [rb.1.err, rb.2, *]
+    first | done | exact rb.1
+  case case2 u _ hne _ herr1 =>
+    have herr : ¬ u.readByte.1.err = true := by intro h; simp [h] at hne
+    have a0 := read_unread_adv ok herr
+    have rb := readByte_sim c (e.back (fun h => readAttr_err _ _ (by simpa using h)))
+    have ra := readAttr_sim _ _ save (unread_sim 1 rb.1 (readByte_pos herr)) a0.ok e
+    conv => arg 3; rw [tagAttrsGo]
+    sif [rb.1.err, rb.2, hne, ra.err, herr1]
+    exact ra
+  case case3 u _ hne _ herr1 hprog ih =>
+    have herr : ¬ u.readByte.1.err = true := by intro h; simp [h] at hne
+    have a0 := read_unread_adv ok herr
+    have a1 := readAttr_adv _ save a0.ok
+    have rb := readByte_sim c (e.back (fun h => tagAttrsGo_err _ _ (readAttr_err _ _ (by simpa using h))))
+    have ra := readAttr_sim _ _ save (unread_sim 1 rb.1 (readByte_pos herr)) a0.ok (e.back (tagAttrsGo_err _ _))
+    have okT := c.okT ok
+    have herrT : ¬ t.readByte.1.err = true := by rw [rb.1.err]; exact herr
+    have b0 := read_unread_adv okT herrT
+    have b1 := readAttr_adv _ save b0.ok
+    have hbufT := (b0.trans b1).buf
+    have hbufU := (a0.trans a1).buf
+    have hleT := b1.ok.le
+    have hleU := a1.ok.le
+    have hprogT : ((t.readByte.1.unread 1).readAttr save).buf.size - ((t.readByte.1.unread 1).readAttr save).rawE <
+        t.buf.size - t.rawE := by
+      rw [hbufT] at hleT ⊢
+      rw [hbufU] at hleU hprog
+      have := ra.rawE
+      have := c.rawE
+      omega
+    conv => arg 3; rw [tagAttrsGo]
+    sif [rb.1.err, rb.2, hne, ra.err, herr1, hprogT]
+    exact ih _ ra a1.ok e
+  case case4 u _ hne _ herr1 hnp =>
+    exfalso
+    have herr : ¬ u.readByte.1.err = true := by intro h; simp [h] at hne
+    have h62 : u.readByte.2 ≠ 62 := by intro h; simp [h] at hne
+    obtain ⟨g1, g2⟩ := get_of_readByte herr
+    obtain ⟨e1, e2, e3, e4⟩ := readByte_get_spec g1
+    have hu := unread1_spec u.readByte.1 (by omega)
+    have a0 := read_unread_adv ok herr
+    have hp := readAttr_progress (u.readByte.1.unread 1) u.readByte.2 save a0.ok (by rw [hu.2.1, e3, g2])
+      (by rw [hu.2.2, e4, hu.1, e2]; simpa using g1) h62
+    have a1 := readAttr_adv (u.readByte.1.unread 1) save a0.ok
+    have hbuf := (a0.trans a1).buf
+    have hle := a1.ok.le
+    rw [hbuf] at hnp hle
+    omega
+
+theorem readTag_sim {F : Prop} {p : Nat} (t u : Tokenizer) (save : Bool) (c : Core F p t u) (ok : Ok u)
+    (h1 : 1 ≤ u.rawE) (e : EO F (readTag u save)) : Core F p (readTag t save) (readTag u save) := by
+  have ok0 : Ok ({ u with attrs := #[], nAttrRet := 0 } : Tokenizer) := ⟨ok.le, ok.panic, ok.hang, ok.utf8⟩
+  have a1 := readTagName_adv _ ok0 h1
+  have a2 := skipWhiteSpace_adv _ a1.ok
+  have es : EO F ({ u with attrs := #[], nAttrRet := 0 } : Tokenizer).readTagName.skipWhiteSpace := e.back (fun h => by
+    unfold readTag; simp only; split <;> first | exact h | exact tagAttrsGo_err _ _ h)
+  have n := readTagName_sim { t with attrs := #[], nAttrRet := 0 } { u with attrs := #[], nAttrRet := 0 }
+    (c.congr (by lrfl) (by lrfl)) ok0 h1 (es.back (skipWhiteSpace_err _))
+  have sk := skipWhiteSpace_sim _ _ n a1.ok es
+  unfold readTag at e ⊢
+  simp only [sk.err] at e ⊢
+  generalize ({ t with attrs := #[], nAttrRet := 0 } : Tokenizer).readTagName.skipWhiteSpace = t2 at *
+  generalize ({ u with attrs := #[], nAttrRet := 0 } : Tokenizer).readTagName.skipWhiteSpace = u2 at *
+  by_cases h2 : u2.err = true
+  · sif [h2]; exact sk
+  · sif [h2] at e ⊢
+    exact tagAttrsGo_sim _ _ save sk a2.ok e
+
+/-! ### `read_start_tag` -/
+
+theorem Core.getElem {F : Prop} {p : Nat} {t u : Tokenizer} (c : Core F p t u) (i : Nat) (hi : i < u.buf.size) :
+    ∃ h : p + i < t.buf.size, t.buf[p + i] = u.buf[i] := by
+  have h : p + i < t.buf.size := by have := c.size; omega
+  refine ⟨h, ?_⟩
+  have := c.agree i hi
+  simp only [Array.getElem?_eq_getElem h, Array.getElem?_eq_getElem hi, Option.some.injEq] at this
+  exact this
+
+theorem Core.extract {F : Prop} {p : Nat} {t u : Tokenizer} (c : Core F p t u) (n a : Nat) (h : a + n ≤ u.buf.size) :
+    (t.buf.extract (p + a) (p + a + n)).toList = (u.buf.extract a (a + n)).toList := by
+  induction n generalizing a with
+  | zero => simp
+  | succ n ih =>
+    obtain ⟨h1, h2⟩ := c.getElem a (by omega)
+    rw [extract_toList_cons _ _ _ h1, extract_toList_cons _ _ _ (by omega : a < u.buf.size), h2]
+    have := ih (a + 1) (by omega)
+    rw [show p + (a + 1) = p + a + 1 by omega] at this
+    rw [this]
+
+theorem matchLower_sim {F : Prop} {p : Nat} {t u : Tokenizer} (c : Core F p t u) (s : List Nat) (q : Nat)
+    (h : q + s.length ≤ u.buf.size) : matchLower t (p + q) s = matchLower u q s := by
+  induction s generalizing q with
+  | nil => simp [matchLower]
+  | cons x xs ih =>
+    simp only [List.length_cons] at h
+    obtain ⟨h1, h2⟩ := c.getElem q (by omega)
+    have hq : q < u.buf.size := by omega
+    simp only [matchLower, h1, hq, dite_true, h2]
+    have := ih (q + 1) (by omega)
+    rw [show p + (q + 1) = p + q + 1 by omega] at this
+    rw [this]
+
+theorem startTagIn_sim {F : Prop} {p : Nat} {t u : Tokenizer} (c : Core F p t u) (ss : List (List Nat))
+    (hd : u.dataS ≤ u.dataE) (hs : u.dataE ≤ u.buf.size) : startTagIn t ss = startTagIn u ss := by
+  induction ss with
+  | nil => rfl
+  | cons s ss ih =>
+    have e1 : t.dataE - t.dataS = u.dataE - u.dataS := by rw [c.dataE, c.dataS]; omega
+    have hu : ¬ u.dataE < u.dataS := by omega
+    have ht : ¬ t.dataE < t.dataS := by rw [c.dataE, c.dataS]; omega
+    simp only [startTagIn, hu, ht, if_false, e1, ih]
+    split
+    · rfl
+    · rename_i hlen
+      have hlen' : u.dataE - u.dataS = s.length := by simpa using hlen
+      rw [c.dataS, matchLower_sim c s u.dataS (by omega)]
+
+theorem rawLookup_sim {F : Prop} {p : Nat} {t u : Tokenizer} (c : Core F p t u) (first : Nat)
+    (tbl : List (Nat × List (List Nat))) (hd : u.dataS ≤ u.dataE) (hs : u.dataE ≤ u.buf.size) :
+    rawLookup t first tbl = rawLookup u first tbl := by
+  induction tbl with
+  | nil => rfl
+  | cons x tbl ih =>
+    obtain ⟨l, names⟩ := x
+    simp only [rawLookup, ih, startTagIn_sim c names hd hs]
+
+theorem startTagRaw_sim {F : Prop} {p : Nat} (t u : Tokenizer) (c : Core F p t u) (hd : u.dataS < u.dataE)
+    (hs : u.dataE ≤ u.buf.size) : Core F p (startTagRaw t) (startTagRaw u) := by
+  unfold startTagRaw
+  have hu : u.dataS < u.buf.size := by omega
+  obtain ⟨ht, hb⟩ := c.getElem u.dataS hu
+  have ht' : t.dataS < t.buf.size := by rw [c.dataS]; exact ht
+  have hb' : t.buf[t.dataS] = u.buf[u.dataS] := by
+    have : t.buf[t.dataS]? = t.buf[p + u.dataS]? := by rw [c.dataS]
+    simp only [Array.getElem?_eq_getElem ht', Array.getElem?_eq_getElem ht, Option.some.injEq] at this
+    rw [this, hb]
+  simp only [hu, ht', dite_true, hb', rawLookup_sim c _ _ (by omega) hs]
+  have hsl : t.slice? t.dataS t.dataE = u.slice? u.dataS u.dataE := by
+    unfold slice?
+    have h1 : t.dataS ≤ t.dataE ∧ t.dataE ≤ t.buf.size := by
+      rw [c.dataS, c.dataE]; have := c.size; omega
+    have h2 : u.dataS ≤ u.dataE ∧ u.dataE ≤ u.buf.size := ⟨by omega, hs⟩
+    simp only [h1, h2, and_self, if_true, Option.some.injEq]
+    have := c.extract (u.dataE - u.dataS) u.dataS (by omega)
+    rw [c.dataS, c.dataE]
+    rw [show p + u.dataS + (u.dataE - u.dataS) = p + u.dataE by omega,
+      show u.dataS + (u.dataE - u.dataS) = u.dataE by omega] at this
+    exact this
+  rw [hsl]
+  generalize u.rawLookup (lowerByte u.buf[u.dataS]) htmlRawDispatch = r
+  generalize u.slice? u.dataS u.dataE = sl
+  rcases r with _ | _ | _
+  · exact ⟨c.size, c.agree, c.full, c.rawS, c.rawE, c.dataS, c.dataE, c.err, c.rawTag, c.cdata, rfl, c.hang, c.utf8⟩
+  · exact c
+  · rcases sl with _ | bs
+    · exact ⟨c.size, c.agree, c.full, c.rawS, c.rawE, c.dataS, c.dataE, c.err, c.rawTag, c.cdata, rfl, c.hang, c.utf8⟩
+    · simp only
+      by_cases hv : validUtf8 bs = true
+      · sif [hv]
+        exact ⟨c.size, c.agree, c.full, c.rawS, c.rawE, c.dataS, c.dataE, c.err, rfl, c.cdata, c.panic, c.hang, c.utf8⟩
+      · sif [hv]
+        exact ⟨c.size, c.agree, c.full, c.rawS, c.rawE, c.dataS, c.dataE, c.err, c.rawTag, c.cdata, c.panic, c.hang, rfl⟩
+
+theorem startTagKind_sim {F : Prop} {p : Nat} (t u : Tokenizer) (c : Core F p t u) (h2 : 2 ≤ u.rawE)
+    (hs : u.rawE ≤ u.buf.size) : startTagKind t = startTagKind u := by
+  unfold startTagKind
+  have hu : u.rawE - 2 < u.buf.size := by omega
+  obtain ⟨ht, hb⟩ := c.getElem (u.rawE - 2) hu
+  have e : t.rawE - 2 = p + (u.rawE - 2) := by rw [c.rawE]; omega
+  have ht' : t.rawE - 2 < t.buf.size := by rw [e]; exact ht
+  have hb' : t.buf[t.rawE - 2] = u.buf[u.rawE - 2] := by
+    have : t.buf[t.rawE - 2]? = t.buf[p + (u.rawE - 2)]? := by rw [e]
+    simp only [Array.getElem?_eq_getElem ht', Array.getElem?_eq_getElem ht, Option.some.injEq] at this
+    rw [this, hb]
+  simp only [hu, ht', dite_true, hb', c.err]
+
+theorem readStartTag_sim {F : Prop} {p : Nat} (t u : Tokenizer) (c : Core F p t u) (ok : Ok u) (h2 : 2 ≤ u.rawE)
+    (htag : TagOk u.rawTag) (e : EO F (readStartTag u).1) :
+    Core F p (readStartTag t).1 (readStartTag u).1 ∧ (readStartTag t).2 = (readStartTag u).2 := by
+  have a1 := readTag_adv u true ok (by omega)
+  have s1 := readTag_spec u true ok (by omega)
+  have er : EO F (readTag u true) := e.back (fun h => by
+    unfold readStartTag; simp only; simp [h])
+  have r := readTag_sim t u true c ok (by omega) er
+  unfold readStartTag
+  simp only [r.err]
+  generalize t.readTag true = t1 at *
+  generalize u.readTag true = u1 at *
+  have hle := a1.ok.le
+  have hm := a1.mono
+  by_cases h1 : u1.err = true
+  · sif [h1]; exact ⟨r, by tr⟩
+  · sif [h1]
+    have sr := startTagRaw_sim t1 u1 r (by omega) (by omega)
+    have hr := startTagRaw_spec u1 (by omega) (by omega)
+    have hflags : (startTagRaw u1).panic = false ∧ (startTagRaw u1).utf8Err = false ∧
+        (startTagRaw u1).rawE = u1.rawE ∧ (startTagRaw u1).buf = u1.buf := by
+      rcases hr with h | ⟨bs, h, _⟩
+      · rw [h]; exact ⟨a1.ok.panic, a1.ok.utf8, rfl, rfl⟩
+      · rw [h]; exact ⟨a1.ok.panic, a1.ok.utf8, rfl, rfl⟩
+    obtain ⟨f1, f2, f3, f4⟩ := hflags
+    have k := startTagKind_sim _ _ sr (by omega) (by rw [f3, f4]; exact hle)
+    have g1 : (startTagRaw t1).panic = false := by rw [sr.panic, f1]
+    have g2 : (startTagRaw t1).utf8Err = false := by rw [sr.utf8, f2]
+    have hnoU : ¬ ((startTagRaw u1).rawE < 2 || (startTagRaw u1).buf.size ≤ (startTagRaw u1).rawE - 2) = true := by
+      simp only [Bool.or_eq_true, decide_eq_true_eq, not_or]; rw [f3, f4]; omega
+    have hnoT : ¬ ((startTagRaw t1).rawE < 2 || (startTagRaw t1).buf.size ≤ (startTagRaw t1).rawE - 2) = true := by
+      simp only [Bool.or_eq_true, decide_eq_true_eq, not_or]
+      have h5 := sr.rawE
+      have h6 := sr.size
+      rw [f3] at h5
+      rw [f4] at h6
+      omega
+    sif [f1, f2, g1, g2, Bool.or_self, hnoU, hnoT, k]
+    exact ⟨sr, by tr⟩
+
 end Tokenizer
 end Rio.Html
